@@ -229,3 +229,27 @@ func Preset(prop string, adversarial bool, r *scen.Rand) *Params {
 	_ = r
 	return p
 }
+
+// Enlarge returns a copy of the parameters with deeper bounds (thorough tier): more
+// tests, more calls per test, deeper nesting, more Configs, more lifetimes, higher -count.
+func Enlarge(p *Params) *Params {
+	q := *p
+	q.MaxTests = p.MaxTests + 4
+	if q.MaxTests > 12 {
+		q.MaxTests = 12
+	}
+	q.MinTests = p.MinTests + 1
+	q.MaxCalls = p.MaxCalls*2 + 2
+	q.MaxDepth = p.MaxDepth + 1
+	q.NCfg = 5
+	q.ManyCallsP = p.ManyCallsP + 0.2
+	q.ExtraLifeP = 0.6
+	if len(p.Counts) > 1 {
+		q.Counts = append(append([]int{}, p.Counts...), 4, 5)
+	}
+	if len(p.RecordCount) > 1 {
+		q.RecordCount = append(append([]int{}, p.RecordCount...), 4)
+	}
+	q.Family = p.Family + "-large"
+	return &q
+}
